@@ -226,6 +226,31 @@ pub fn repetitive_tree(rng: &mut Rng, max_nodes: usize) -> T {
         let n = rng.below(max_nodes as u64 / 3 + 2) as usize + 2;
         return T::list((0..n).map(|_| rng.pick(&items).clone()).collect());
     }
+    if style == 2 || style == 3 {
+        // sub-trees equal to the (nil-terminated, reversed) list of already parsed siblings: the
+        // serializer then emits back-references to the parse stack itself (paths ending on the
+        // stack spine), several of them with conses in between
+        let k = rng.below(3) as usize + 1;
+        let items: Vec<T> = (0..k).map(|_| T::Atom(rep_atom(rng, &mut apool))).collect();
+        let mut rev = items.clone();
+        rev.reverse();
+        if style == 2 {
+            // palindromic list repeated: ((A B B A) (A B B A) …)
+            let mut pal = items.clone();
+            pal.extend(rev);
+            let p = T::list(pal);
+            let reps = rng.below(3) as usize + 2;
+            return T::list((0..reps).map(|_| p.clone()).collect());
+        }
+        // (a b c (c b a) … ) possibly repeated and nested
+        let mut l = items.clone();
+        l.push(T::list(rev.clone()));
+        if rng.chance(1, 2) {
+            l.push(T::list(rev));
+        }
+        let inner = T::list(l);
+        return if rng.chance(1, 2) { T::list(vec![inner.clone(), inner]) } else { inner };
+    }
     let rounds = rng.below(max_nodes as u64 / 2 + 1) as usize + 1;
     let mut budget = max_nodes;
     for _ in 0..rounds {
